@@ -201,4 +201,133 @@ theorem settleThen_eff {s s' : St} {f : St → St} {o : Out}
   and_intros <;> first | trivial | omega | exact hp' | exact Or.inl trivial
 
 
+/-- an operation that touches no accounting cell -/
+theorem Eff.of_frame {s s' : St}
+    (h : s'.accumulated = s.accumulated ∧ s'.baseBudget = s.baseBudget ∧
+      s'.boostedBudget = s.boostedBudget ∧ s'.paidBase = s.paidBase ∧
+      s'.paidBoosted = s.paidBoosted ∧ s'.reserve = s.reserve ∧ s'.capacity = s.capacity ∧
+      s'.bal = s.bal ∧ s'.virt = s.virt ∧ s'.supply = s.supply ∧
+      s'.unbondOut = s.unbondOut ∧ s'.boostedPct = s.boostedPct ∧ s'.firstWeek = s.firstWeek ∧
+      s.epoch ≤ s'.epoch) : Eff s s' := by
+  obtain ⟨f1, f2, f3, f4, f5, f6, f7, f8, f9, f10, f11, f12, f13, f14⟩ := h
+  refine ⟨0, 0, 0, 0, 0, 0, Or.inl ⟨rfl, rfl⟩, Nat.le_refl _, ?_⟩
+  rw [f1, f2, f3, f4, f5, f6, f7, f8, f9, f10, f11, f12, f13]
+  and_intros <;> first | trivial | omega | exact id | exact Or.inl trivial
+
+theorem stepCore_eff {s s' : St} {op : Op} {o : Out} (h : stepCore s op = some (s', o)) : Eff s s' := by
+  cases op <;> simp only [stepCore] at h
+  case stake c orig a adds =>
+    cases orig <;> simp only [stakeFarm, Option.bind_eq_bind, Option.bind_eq_some_iff] at h
+    · exact stakeCore_eff h
+    · obtain ⟨_, _, h⟩ := h; exact stakeCore_eff h
+  case stakeProxy c orig a adds =>
+    simp only [stakeProxy, Option.bind_eq_bind, Option.bind_eq_some_iff] at h
+    obtain ⟨_, _, h⟩ := h; exact stakeCore_eff h
+  case stakeBehalf c u a adds =>
+    simp only [stakeOnBehalf, Option.bind_eq_bind, Option.bind_eq_some_iff] at h
+    obtain ⟨_, _, _, _, h⟩ := h; exact stakeCore_eff h
+  case claim c orig p =>
+    cases orig <;> simp only [claimRewards, Option.bind_eq_bind, Option.bind_eq_some_iff] at h
+    · exact claimCore_eff h
+    · obtain ⟨_, _, h⟩ := h; exact claimCore_eff h
+  case claimNew c orig nv p =>
+    simp only [claimNewValue, Option.bind_eq_bind, Option.bind_eq_some_iff] at h
+    obtain ⟨_, _, h⟩ := h; exact claimCore_eff h
+  case claimBehalf c ps =>
+    simp only [claimOnBehalf, Option.bind_eq_bind, Option.bind_eq_some_iff] at h
+    obtain ⟨_, _, _, _, h⟩ := h; exact claimCore_eff h
+  case compound c ps => exact compound_eff h
+  case unstake c orig p =>
+    cases orig <;> simp only [unstakeFarm, Option.bind_eq_bind, Option.bind_eq_some_iff] at h
+    · exact unstakeCore_eff h
+    · obtain ⟨_, _, h⟩ := h; exact unstakeCore_eff h
+  case unstakeProxy c orig x p =>
+    simp only [unstakeProxy, Option.bind_eq_bind, Option.bind_eq_some_iff] at h
+    obtain ⟨_, _, h⟩ := h; exact unstakeCore_eff h
+  case unbond c p => exact unbondFarm_eff h
+  case merge c ps => exact mergeTokens_eff h
+  case claimBoosted c u => exact claimBoostedRewards_eff h
+  case «calc» q a t =>
+    simp only [Option.map_eq_some_iff, Prod.mk.injEq] at h
+    obtain ⟨⟨s1, v⟩, h1, rfl, _⟩ := h
+    exact calcRewards_eff h1
+  case transfer a b p =>
+    simp only [transfer, Option.bind_eq_bind, Option.bind_eq_some_iff, req_eq_some,
+      Option.pure_def, Option.some.injEq, Prod.mk.injEq] at h
+    obtain ⟨_, _, hold0, _, rfl, _⟩ := h
+    exact Eff.of_frame (by simp)
+  case setEnergy u a l =>
+    simp only [Option.some.injEq, Prod.mk.injEq] at h
+    obtain ⟨rfl, _⟩ := h
+    exact Eff.of_frame (by simp)
+  case updateEnergy u =>
+    simp only [updateEnergy, Option.bind_eq_bind, Option.bind_eq_some_iff,
+      Option.pure_def, Option.some.injEq, Prod.mk.injEq] at h
+    obtain ⟨g, _, rfl, _⟩ := h
+    exact Eff.of_frame (by simp)
+  case topUp x => exact topUp_eff h
+  case withdraw x => exact withdraw_eff h
+  case setMaxApr x =>
+    simp only [setMaxApr, Option.bind_eq_bind, Option.bind_eq_some_iff] at h
+    obtain ⟨_, _, h⟩ := h
+    exact settleThen_eff (f := fun t => { t with maxApr := x }) (fun t => by simp) (fun t ht => ht) h
+  case setPerBlock x =>
+    simp only [setPerBlock, Option.bind_eq_bind, Option.bind_eq_some_iff] at h
+    obtain ⟨_, _, h⟩ := h
+    exact settleThen_eff (f := fun t => { t with perBlock := x }) (fun t => by simp) (fun t ht => ht) h
+  case startProduce =>
+    simp only [startProduce, Option.bind_eq_bind, Option.bind_eq_some_iff, req_eq_some,
+      Option.pure_def, Option.some.injEq, Prod.mk.injEq] at h
+    obtain ⟨_, _, _, _, rfl, _⟩ := h
+    exact Eff.of_frame (by simp)
+  case endProduce =>
+    exact settleThen_eff (f := fun t => { t with produce := false }) (fun t => by simp) (fun t ht => ht) h
+  case setMinUnbond e =>
+    simp only [setMinUnbond, Option.bind_eq_bind, Option.bind_eq_some_iff, req_eq_some,
+      Option.pure_def, Option.some.injEq, Prod.mk.injEq] at h
+    obtain ⟨_, _, rfl, _⟩ := h
+    exact Eff.of_frame (by simp)
+  case setBoostedPct p =>
+    simp only [setBoostedPct, Option.bind_eq_bind, Option.bind_eq_some_iff, req_eq_some] at h
+    obtain ⟨_, hp, h⟩ := h
+    exact settleThen_eff (f := fun t => { t with boostedPct := p }) (fun t => by simp) (fun t _ => hp) h
+  case setFactors x =>
+    simp only [setFactors, Option.bind_eq_bind, Option.bind_eq_some_iff, req_eq_some,
+      Option.pure_def, Option.some.injEq, Prod.mk.injEq] at h
+    obtain ⟨_, _, c, _, rfl, _⟩ := h
+    exact Eff.of_frame (by simp)
+  case collectUndistributed =>
+    simp only [collectUndistributed, Option.bind_eq_bind, Option.bind_eq_some_iff, req_eq_some] at h
+    obtain ⟨_, _, h⟩ := h
+    split at h <;> simp only [Option.pure_def, Option.some.injEq, Prod.mk.injEq] at h <;>
+      obtain ⟨rfl, _⟩ := h <;> exact Eff.of_frame (by simp)
+  case pause =>
+    simp only [Option.some.injEq, Prod.mk.injEq] at h
+    obtain ⟨rfl, _⟩ := h
+    exact Eff.of_frame (by simp)
+  case resume =>
+    simp only [Option.some.injEq, Prod.mk.injEq] at h
+    obtain ⟨rfl, _⟩ := h
+    exact Eff.of_frame (by simp)
+  case hubWhitelist u a =>
+    simp only [Option.bind_eq_bind, Option.bind_eq_some_iff, req_eq_some,
+      Option.pure_def, Option.some.injEq, Prod.mk.injEq] at h
+    obtain ⟨_, _, rfl, _⟩ := h
+    exact Eff.of_frame (by simp)
+  case hubRemove u a =>
+    simp only [Option.bind_eq_bind, Option.bind_eq_some_iff, req_eq_some,
+      Option.pure_def, Option.some.injEq, Prod.mk.injEq] at h
+    obtain ⟨_, _, rfl, _⟩ := h
+    exact Eff.of_frame (by simp)
+  case advance b e =>
+    simp only [Option.some.injEq, Prod.mk.injEq] at h
+    obtain ⟨rfl, _⟩ := h
+    exact Eff.of_frame (by simp)
+
+theorem step_eff {s s' : St} {op : Op} {o : Out} (h : step s op = some (s', o)) : Eff s s' := by
+  simp only [step, Option.bind_eq_bind, Option.bind_eq_some_iff] at h
+  obtain ⟨_, _, h⟩ := h
+  exact stepCore_eff h
+
+
 end Mx.Staking
